@@ -293,7 +293,11 @@ def run_shard(spec, acc):
             with cb.time_limit(10):
                 pat = cb.build(node)
                 snap0 = cb.snapshot(pat)
-                got, got_ended, exc = cb.real_take(pat, N, how)
+                inval = rng.choice([None, None, 7, {'k': 1}]) \
+                    if how in ('next', 'embed', 'all') else None
+                if inval is not None:
+                    acc.count('driven_with_non_None_inval')
+                got, got_ended, exc = cb.real_take(pat, N, how, inval)
                 kind_bad = compare(exp, exp_ended, got, got_ended, exc)
                 acc.count('sequences_compared')
                 acc.count('values_compared', len(exp))
@@ -344,12 +348,18 @@ def run_shard(spec, acc):
                 stage = 'after-end'
                 if exc is None and exp_ended and not kind_bad:
                     k_more = rng.randint(1, 3)
-                    first, post, second, aexc = cb.after_end(pat, N + 2, k_more)
+                    first, post, second, aexc = cb.after_end(
+                        pat, N + 2, k_more, midway=rng.randint(1, 5))
                     acc.count('ended_streams_polled_again')
                     if aexc is not None:
                         acc.violation(
                             f'C13/stream-after-end/{node[0]}/raises-{type(aexc).__name__}',
                             {'case': i, 'expression': text, 'tb': short_tb(aexc)})
+                    elif post is None and second is not None:
+                        acc.violation(
+                            f'C13/stream-after-reset-differs/{node[0]}/mid-way',
+                            {'case': i, 'expression': text, 'first': first[:24],
+                             'after_reset': second[:24]})
                     elif post is not None:
                         if post:
                             acc.violation(
